@@ -25,6 +25,9 @@ func factsC29() {
 	bc := fn(f, "BucketCompactor", "Compact")
 	emitList("compactLoopOrder", src+" BucketCompactor.Compact: order of sync, cleaning, garbage collection and grouping in one iteration",
 		callSeq(body(bc), "SyncMetas", "DeleteMarkedBlocks", "GarbageCollect", "Groups"))
+	emitList("groupCompactUploadGuard", src+" Group.compact: how the error of the result's upload reaches the check in front of the marking loop: "+
+		"[assignment token of the innermost assignment whose right side runs block.Upload, its left side, kind of the loop-body statement that contains it, "+
+		"condition of the if statement that follows that statement, how that if ends]", uploadGuard(gc))
 	del := fn(f, "Group", "deleteBlock")
 	emitList("deleteBlockMarks", src+" Group.deleteBlock marks for deletion (it does not delete)", callSeq(body(del), "MarkForDeletion", "Delete"))
 }
@@ -193,4 +196,85 @@ func factsC30() {
 	vt := fn(f, "verticalCompactionDownsampleFilter", "Plan")
 	emitStr("plannerVerticalResCond", src+" verticalCompactionDownsampleFilter.Plan: which blocks of an overlapping plan are marked",
 		firstIfCond(body(vt), "Resolution"))
+}
+
+// containsCall reports whether n contains a call whose callee is exactly name.
+func containsCall(n ast.Node, name string) bool {
+	found := false
+	ast.Inspect(n, func(m ast.Node) bool {
+		if c, ok := m.(*ast.CallExpr); ok && callName(c) == name {
+			found = true
+		}
+		return !found
+	})
+	return found
+}
+
+// uploadGuard describes the statement of Group.compact's `for … range compIDs` body that uploads the result, and the
+// statement right after it.  Unrepaired shape: `err = tracing.DoInSpanWithErr(… block.Upload …)` followed by
+// `if err != nil { return … }`.  Anything else (an inner `:=` that shadows err, the upload moved into a nested loop,
+// a check of another variable, a check that does not return) changes the list.
+func uploadGuard(fd *ast.FuncDecl) []string {
+	unknown := []string{"unknown"}
+	if fd == nil || fd.Body == nil {
+		return unknown
+	}
+	var loop *ast.RangeStmt
+	ast.Inspect(fd.Body, func(n ast.Node) bool {
+		if loop != nil {
+			return false
+		}
+		if r, ok := n.(*ast.RangeStmt); ok && text(r.X) == "compIDs" && containsCall(r.Body, "block.Upload") {
+			loop = r
+			return false
+		}
+		return true
+	})
+	if loop == nil {
+		return unknown
+	}
+	for i, st := range loop.Body.List {
+		if !containsCall(st, "block.Upload") {
+			continue
+		}
+		kind := "other"
+		switch st.(type) {
+		case *ast.AssignStmt:
+			kind = "assign"
+		case *ast.ForStmt, *ast.RangeStmt:
+			kind = "loop"
+		case *ast.IfStmt:
+			kind = "if"
+		case *ast.ExprStmt:
+			kind = "expr"
+		}
+		// innermost assignment whose right-hand side contains the upload
+		tok, lhs := "none", "none"
+		ast.Inspect(st, func(n ast.Node) bool {
+			if a, ok := n.(*ast.AssignStmt); ok && len(a.Rhs) == 1 && containsCall(a.Rhs[0], "block.Upload") {
+				tok = a.Tok.String()
+				parts := make([]string, len(a.Lhs))
+				for j, l := range a.Lhs {
+					parts[j] = text(l)
+				}
+				lhs = strings.Join(parts, ",")
+			}
+			return true
+		})
+		cond, exit := "none", "none"
+		if i+1 < len(loop.Body.List) {
+			if ifs, ok := loop.Body.List[i+1].(*ast.IfStmt); ok && ifs.Init == nil {
+				cond = text(ifs.Cond)
+				if n := len(ifs.Body.List); n > 0 {
+					if _, ok := ifs.Body.List[n-1].(*ast.ReturnStmt); ok {
+						exit = "return"
+					} else {
+						exit = "falls-through"
+					}
+				}
+			}
+		}
+		return []string{tok, lhs, kind, cond, exit}
+	}
+	return unknown
 }
